@@ -31,6 +31,7 @@ import (
 	"runtime/debug"
 	"strings"
 	"sync"
+	"sync/atomic"
 	"time"
 
 	xctx "github.com/ossrs/go-oryx-lib/https/net/context"
@@ -68,6 +69,19 @@ type caseT struct {
 type ctxKey string // the key type of the cases; a plain string with the same text is a different key
 
 const closeBound = 30 * time.Second
+
+// stalls counts the cases of this process in which a Done channel stayed open for closeBound. After three of them the
+// batch is failing already (each failure is reproduced by the check in a fresh process, with the full bound), so the
+// remaining cases wait two seconds only instead of half a minute each.
+var stalls atomic.Int32
+
+func closeWait() time.Duration {
+	if stalls.Load() >= 3 {
+		return 2 * time.Second
+	}
+	return closeBound
+}
+
 const settleBound = 5 * time.Second
 
 var deltas = []time.Duration{40 * time.Millisecond, 400 * time.Millisecond, 4 * time.Second}
@@ -293,12 +307,14 @@ func (w *world) compare(si int, s *stepT) (*mismatch, *errLate) {
 	}
 	// ---- B
 	t0 := time.Now()
-	bound := time.After(closeBound)
+	cw := closeWait()
+	bound := time.After(cw)
 	for _, x := range pending {
 		select {
 		case <-w.ctxs[x].Done():
 		case <-bound:
-			m := &mismatch{what: fmt.Sprintf("%s: Done still open %v after the step, the specification says closed (Err %s)", at(x), closeBound, s.Obs[x].Err), firm: true}
+			stalls.Add(1)
+			m := &mismatch{what: fmt.Sprintf("%s: Done still open %v after the step, the specification says closed (Err %s)", at(x), cw, s.Obs[x].Err), firm: true}
 			if s.Op == "cancel" && w.parent[x] != s.C && x != s.C && w.parent[x] != 0 && isClosed(w.ctxs[w.parent[x]].Done()) {
 				m.dev = "X02/no-grandchildren"
 			}
